@@ -58,6 +58,8 @@ def coq_ifs(l, ids):
 
 def coq_call(s, info, ids):
     op = s['op']
+    if op == 'peer':
+        return 'CPeer %s %s %s' % (cN(ids(info['a'])), cN(ids(info['b'])), cexn(info['pure']))
     oid = copt(s.get('node_id'), lambda x: cN(ids(x)))
     name = cstr(s['name'])
     if op == 'add_node':
